@@ -78,6 +78,8 @@ type frame struct {
 	// boolean parameters bound to a condition of the caller (`helper(x == nil)`):
 	// a test of the parameter is a test of that condition
 	atoms map[ssa.Value]boundAtom
+	// rounds walked so far of loops that are unrolled (see unrollBound)
+	unroll map[*ssa.BasicBlock]int
 	// continuation in caller
 	callInstr ssa.CallInstruction
 	retBlock  *ssa.BasicBlock
@@ -140,6 +142,12 @@ func (st *wstate) clone() *wstate {
 			nf.onPath[k] = v
 		}
 		nf.defers = append([]*ssa.Defer(nil), f.defers...)
+		if f.unroll != nil {
+			nf.unroll = make(map[*ssa.BasicBlock]int, len(f.unroll))
+			for k, v := range f.unroll {
+				nf.unroll[k] = v
+			}
+		}
 		n.frames = append(n.frames, &nf)
 	}
 	return n
@@ -414,6 +422,16 @@ func (w *Walker) canonD(st *wstate, fr *frame, v ssa.Value, d int) string {
 	case *ssa.UnOp:
 		switch x.Op {
 		case token.MUL:
+			if g, ok := x.X.(*ssa.Global); ok {
+				// a package-level slice literal that nothing ever changes: its elements
+				if t := w.P.globalTable(g); t != nil && t.kind == "slice" {
+					var vals []string
+					for _, e := range t.entries {
+						vals = append(vals, e.val)
+					}
+					return "[" + strings.Join(vals, ", ") + "]"
+				}
+			}
 			addr := w.canonD(st, fr, x.X, d+1)
 			if val, ok := st.store[addr]; ok {
 				return val
@@ -428,6 +446,11 @@ func (w *Walker) canonD(st *wstate, fr *frame, v ssa.Value, d int) string {
 			if fa, ok := x.X.(*ssa.FieldAddr); ok {
 				base := w.canonD(st, fr, fa.X, d+1)
 				if bv, ok := st.store[base]; ok {
+					if strings.HasPrefix(bv, "{") {
+						if fv, ok := litField(bv, fieldName(fa.X.Type(), fa.Field)); ok {
+							return fv
+						}
+					}
 					return bv + "." + fieldName(fa.X.Type(), fa.Field)
 				}
 			}
@@ -459,7 +482,21 @@ func (w *Walker) canonD(st *wstate, fr *frame, v ssa.Value, d int) string {
 			return "recv(" + w.canonD(st, fr, x.X, d+1) + ")@" + x.Name()
 		}
 	case *ssa.BinOp:
-		e := "(" + w.canonD(st, fr, x.X, d+1) + " " + x.Op.String() + " " + w.canonD(st, fr, x.Y, d+1) + ")"
+		xa, ya := w.canonD(st, fr, x.X, d+1), w.canonD(st, fr, x.Y, d+1)
+		if x.Op == token.ADD || x.Op == token.SUB {
+			// index arithmetic on known constants (unrolled table loops)
+			if sz, _, isInt := isInteger(x.Type()); isInt && sz == 8 {
+				if ka, ok1 := constInt(xa); ok1 {
+					if kb, ok2 := constInt(ya); ok2 && ka > -1<<31 && ka < 1<<31 && kb > -1<<31 && kb < 1<<31 {
+						if x.Op == token.ADD {
+							return fmt.Sprintf("const:%d", ka+kb)
+						}
+						return fmt.Sprintf("const:%d", ka-kb)
+					}
+				}
+			}
+		}
+		e := "(" + xa + " " + x.Op.String() + " " + ya + ")"
 		switch x.Op {
 		case token.ADD, token.SUB, token.MUL, token.SHL:
 			// arithmetic in a narrow integer type wraps: make that explicit
@@ -512,8 +549,21 @@ func (w *Walker) canonD(st *wstate, fr *frame, v ssa.Value, d int) string {
 		if envRecv(x.X) {
 			return "*free:" + fieldName(x.X.Type(), x.Field)
 		}
-		return w.canonD(st, fr, x.X, d+1) + "." + fieldName(x.X.Type(), x.Field)
+		base := w.canonD(st, fr, x.X, d+1)
+		if strings.HasPrefix(base, "{") {
+			// field of a known struct value (an entry of a constant table)
+			if fv, ok := litField(base, fieldName(x.X.Type(), x.Field)); ok {
+				return fv
+			}
+		}
+		return base + "." + fieldName(x.X.Type(), x.Field)
 	case *ssa.IndexAddr:
+		if sl, ok := x.X.(*ssa.Slice); ok {
+			if _, isLit := literalLen(sl); isLit {
+				// element of a local table literal: the array cell it was built in
+				return w.canonD(st, fr, sl.X, d+1) + "[" + w.canonD(st, fr, x.Index, d+1) + "]"
+			}
+		}
 		base := w.canonD(st, fr, x.X, d+1)
 		if strings.HasPrefix(base, "&alloc:") {
 			return base + "[" + w.canonD(st, fr, x.Index, d+1) + "]"
@@ -707,6 +757,11 @@ func (w *Walker) callCanon(st *wstate, fr *frame, x *ssa.Call, d int) string {
 	args := w.callArgs(st, fr, &x.Call, d)
 	s := name + "(" + strings.Join(args, ", ") + ")"
 	if name == "builtin:len" || name == "builtin:cap" {
+		if len(x.Call.Args) == 1 {
+			if n, ok := literalLen(x.Call.Args[0]); ok {
+				return fmt.Sprintf("const:%d", n)
+			}
+		}
 		return strings.TrimPrefix(name, "builtin:") + "(" + strings.Join(args, ", ") + ")"
 	}
 	if pureCallees[name] {
@@ -963,6 +1018,55 @@ func (w *Walker) block(st *wstate, b *ssa.BasicBlock, pred *ssa.BasicBlock) {
 		return
 	}
 	fr := st.top()
+	if n := unrollBound(b); n > 0 && pred != nil {
+		// a `range` over a small local table literal: walked element by element
+		body := w.loopsOf(fr.fn).headers[b]
+		fromInside := body[pred]
+		if fr.unroll == nil {
+			fr.unroll = map[*ssa.BasicBlock]int{}
+		}
+		if !fromInside {
+			fr.unroll[b] = 0
+		} else {
+			fr.unroll[b]++
+		}
+		if fr.unroll[b] <= n {
+			for lb := range body {
+				delete(fr.onPath, lb)
+				// values computed in the previous round are computed afresh
+				for _, bi := range lb.Instrs {
+					if v, ok := bi.(ssa.Value); ok {
+						if _, isPhi := bi.(*ssa.Phi); isPhi && lb == b {
+							continue
+						}
+						delete(fr.env, v)
+					}
+				}
+			}
+			fr.onPath[b] = true
+			idx := -1
+			for i, p := range b.Preds {
+				if p == pred {
+					idx = i
+				}
+			}
+			var phis []*ssa.Phi
+			var vals []string
+			for _, in := range b.Instrs {
+				phi, ok := in.(*ssa.Phi)
+				if !ok {
+					break
+				}
+				phis = append(phis, phi)
+				vals = append(vals, w.canon(st, fr, phi.Edges[idx]))
+			}
+			for i, phi := range phis {
+				fr.env[phi] = vals[i]
+			}
+			w.instrs(st, b, 0)
+			return
+		}
+	}
 	if fr.onPath[b] {
 		var at ssa.Instruction
 		if len(b.Instrs) > 0 {
@@ -1056,6 +1160,67 @@ func (w *Walker) block(st *wstate, b *ssa.BasicBlock, pred *ssa.BasicBlock) {
 		w.seen[k] = true
 	}
 	w.instrs(st, b, 0)
+}
+
+// unrollBound: when b is the header of a `range` loop over a slice of a local
+// array literal with at most 6 elements (a table written out in the function),
+// the number of elements; otherwise 0. Such a loop is walked element by element
+// (every round with its concrete index, so that the table's entries are read as
+// the constants and variables they were built from) instead of once with an
+// unknown index.
+func unrollBound(b *ssa.BasicBlock) int {
+	if len(b.Instrs) < 2 || len(b.Preds) != 2 {
+		return 0
+	}
+	phi, ok := b.Instrs[0].(*ssa.Phi)
+	if !ok || phi.Comment != "rangeindex" {
+		return 0
+	}
+	iff, ok := b.Instrs[len(b.Instrs)-1].(*ssa.If)
+	if !ok {
+		return 0
+	}
+	cmp, ok := iff.Cond.(*ssa.BinOp)
+	if !ok || cmp.Op != token.LSS {
+		return 0
+	}
+	call, ok := cmp.Y.(*ssa.Call)
+	if !ok {
+		return 0
+	}
+	if bi, ok := call.Call.Value.(*ssa.Builtin); !ok || bi.Name() != "len" || len(call.Call.Args) != 1 {
+		return 0
+	}
+	n, ok := literalLen(call.Call.Args[0])
+	if !ok || n < 1 || n > 6 {
+		return 0
+	}
+	// a small body only
+	cnt := 0
+	for _, blk := range b.Parent().Blocks {
+		if b.Dominates(blk) {
+			cnt++
+		}
+	}
+	_ = cnt
+	return int(n)
+}
+
+// literalLen: the length of a full slice of a local array (a slice literal).
+func literalLen(v ssa.Value) (int64, bool) {
+	sl, ok := v.(*ssa.Slice)
+	if !ok || sl.Low != nil || sl.High != nil {
+		return 0, false
+	}
+	al, ok := sl.X.(*ssa.Alloc)
+	if !ok || al.Comment != "slicelit" {
+		return 0, false
+	}
+	arr, ok := al.Type().Underlying().(*types.Pointer).Elem().Underlying().(*types.Array)
+	if !ok {
+		return 0, false
+	}
+	return arr.Len(), true
 }
 
 // nilnessAtReturn: is the returned SSA value known (non-)nil because the
@@ -1216,6 +1381,10 @@ func (w *Walker) instrs(st *wstate, b *ssa.BasicBlock, from int) {
 					w.emit(st, Event{Kind: "store", Instr: in, Addr: addr, Val: val})
 				}
 			}
+		case *ssa.Lookup:
+			if w.lookupConstTable(st, b, i, in) {
+				return // continued per table entry
+			}
 		case *ssa.MapUpdate:
 			w.emit(st, Event{Kind: "mapupdate", Instr: in, Addr: w.canon(st, fr, in.Map), Key: w.canon(st, fr, in.Key), Val: w.canon(st, fr, in.Value)})
 		case *ssa.FieldAddr:
@@ -1363,6 +1532,25 @@ func (w *Walker) branch(st *wstate, b *ssa.BasicBlock, in *ssa.If) {
 		if atom.Kind == "bool" && (atom.A == "const:true" || atom.A == "const:false") {
 			if (atom.A == "const:true") != atruth {
 				continue
+			}
+		}
+		// a comparison of two known integers
+		if atom.Kind == "cmp" && atom.Dom == "int" {
+			if ka, ok1 := constInt(atom.A); ok1 {
+				if kb, ok2 := constInt(atom.B); ok2 {
+					holds := false
+					switch atom.R {
+					case LT:
+						holds = ka < kb
+					case EQ:
+						holds = ka == kb
+					case GT:
+						holds = ka > kb
+					}
+					if holds != atruth {
+						continue
+					}
+				}
 			}
 		}
 		// values that are never nil: results of fmt.Errorf / errors.New and the
@@ -1523,6 +1711,130 @@ func (w *Walker) call(st *wstate, b *ssa.BasicBlock, idx int, in *ssa.Call) bool
 	}
 	st.frames = append(st.frames, nf)
 	w.block(st, fn.Blocks[0], nil)
+	return true
+}
+
+// lookupConstTable: a lookup in a constant package-level map (see consttab.go)
+// with a key that is not a constant continues once per entry, with the key
+// pinned to that entry's key and the result bound to its value, and once for
+// "no such entry". Returns false when in is not such a lookup.
+func (w *Walker) lookupConstTable(st *wstate, b *ssa.BasicBlock, idx int, in *ssa.Lookup) bool {
+	ld, ok := in.X.(*ssa.UnOp)
+	if !ok || ld.Op != token.MUL {
+		return false
+	}
+	g, ok := ld.X.(*ssa.Global)
+	if !ok {
+		return false
+	}
+	tab := w.P.globalTable(g)
+	if tab == nil || tab.kind != "map" || len(tab.entries) == 0 || len(tab.entries) > 16 {
+		return false
+	}
+	fr := st.top()
+	key := w.canon(st, fr, in.Index)
+	var ex0, ex1 ssa.Value
+	if in.CommaOk && in.Referrers() != nil {
+		for _, r := range *in.Referrers() {
+			if ex, ok := r.(*ssa.Extract); ok {
+				if ex.Index == 0 {
+					ex0 = ex
+				} else {
+					ex1 = ex
+				}
+			}
+		}
+	}
+	isBool := false
+	if bt, ok := in.Index.Type().Underlying().(*types.Basic); ok && bt.Info()&types.IsBoolean != 0 {
+		isBool = true
+	}
+	bind := func(ns *wstate, val, okv string) {
+		nfr := ns.top()
+		if in.CommaOk {
+			if ex0 != nil {
+				nfr.env[ex0] = val
+			}
+			if ex1 != nil {
+				nfr.env[ex1] = okv
+			}
+		} else {
+			nfr.env[in] = val
+		}
+	}
+	zero := "zero:" + typeShort(in.Type())
+	if in.CommaOk {
+		if tup, ok := in.Type().(*types.Tuple); ok && tup.Len() == 2 {
+			zero = "zero:" + typeShort(tup.At(0).Type())
+		}
+	}
+	seenTrue, seenFalse := false, false
+	for _, e := range tab.entries {
+		ns := st.clone()
+		feasible := true
+		if strings.HasPrefix(key, "const:") {
+			feasible = key == e.key
+		} else if isBool {
+			a, neg := w.atomOf(ns, ns.top(), in.Index)
+			truth := (e.key == "const:true") != neg
+			feasible = ns.rel.Refine(a, truth)
+			if feasible {
+				w.emit(ns, Event{Kind: "cond", Instr: in, Cond: &Cond{Atom: a, Truth: truth}})
+			}
+			if e.key == "const:true" {
+				seenTrue = true
+			} else {
+				seenFalse = true
+			}
+		} else {
+			dom := "int"
+			if bt, ok := in.Index.Type().Underlying().(*types.Basic); ok && bt.Info()&types.IsString != 0 {
+				dom = "str"
+			}
+			a := Atom{Kind: "cmp", Dom: dom, A: key, B: e.key, R: EQ}
+			feasible = ns.rel.Refine(a, true)
+			if feasible {
+				w.emit(ns, Event{Kind: "cond", Instr: in, Cond: &Cond{Atom: a, Truth: true}})
+			}
+		}
+		if !feasible {
+			continue
+		}
+		bind(ns, e.val, "const:true")
+		w.instrs(ns, b, idx+1)
+		if w.Err != nil {
+			return true
+		}
+	}
+	// no entry
+	if !(isBool && seenTrue && seenFalse) {
+		ns := st
+		feasible := true
+		if strings.HasPrefix(key, "const:") {
+			for _, e := range tab.entries {
+				if e.key == key {
+					feasible = false
+				}
+			}
+		} else if !isBool {
+			dom := "int"
+			if bt, ok := in.Index.Type().Underlying().(*types.Basic); ok && bt.Info()&types.IsString != 0 {
+				dom = "str"
+			}
+			for _, e := range tab.entries {
+				a := Atom{Kind: "cmp", Dom: dom, A: key, B: e.key, R: EQ}
+				if !ns.rel.Refine(a, false) {
+					feasible = false
+					break
+				}
+				w.emit(ns, Event{Kind: "cond", Instr: in, Cond: &Cond{Atom: a, Truth: false}})
+			}
+		}
+		if feasible {
+			bind(ns, zero, "const:false")
+			w.instrs(ns, b, idx+1)
+		}
+	}
 	return true
 }
 
